@@ -154,13 +154,15 @@ Definition run_before (a b : runr) : bool :=
   (r_b a <? r_b b) || ((r_b a =? r_b b) && (r_pos a <? r_pos b)).
 
 (* shard FIFO: if Submit a returned before Submit b was called (same shard, both
-   admitted), a is delivered before b *)
+   admitted), a is delivered before b.  [run_of]: the delivery record of a task (unique by ok_once). *)
+Definition run_of (h : hist) (x : N) : option runr := find (fun r => r_task r =? x) (h_runs h).
+
 Definition fifo_pair (h : hist) (a b : sub) : bool :=
   if is_ok (s_res a) && is_ok (s_res b) && (s_shard a =? s_shard b) && (s_e a <? s_b b)
-  then forallb (fun ra =>
-         negb (r_task ra =? s_task a)
-         || forallb (fun rb => negb (r_task rb =? s_task b) || run_before ra rb) (h_runs h))
-       (h_runs h)
+  then match run_of h (s_task a), run_of h (s_task b) with
+       | Some ra, Some rb => run_before ra rb
+       | _, _ => true
+       end
   else true.
 
 Definition ok_mailbox (h : hist) : bool :=
